@@ -95,8 +95,9 @@ def run(tier, v):
         base[o["id"]] = hashlib.sha1(json.dumps(o["out"][0]["v"], sort_keys=True).encode()).hexdigest()
     scen = []
 
-    def add(pi, isn_c, isn_s, pieces_c, pieces_s, order):
-        scen.append({"pair": pi, "isn": {"c": isn_c, "s": isn_s}, "pieces": {"c": pieces_c, "s": pieces_s}, "order": order})
+    def add(pi, isn_c, isn_s, pieces_c, pieces_s, order, tfo=False):
+        # tfo: the first client piece travels on the SYN itself (TCP Fast Open): it is the first segment of the stream like any other
+        scen.append({"pair": pi, "isn": {"c": isn_c, "s": isn_s}, "pieces": {"c": pieces_c, "s": pieces_s}, "order": order, "tfo": tfo})
 
     def orders(pc, ps, count):
         segs = [("c", i) for i in range(len(pc))] + [("s", i) for i in range(len(ps))]
@@ -110,6 +111,15 @@ def run(tier, v):
     for pi, (R, S) in enumerate(PAIRS):
         hl_c = len(head_only(R))
         isns = [(1000, 5000), ((1 << 31) - 40, (1 << 31) + 7), (M32 - 1, M32 - 2), (M32 - 1 - hl_c // 2, M32 - 1 - 20), (M32 - len(R) + 3, M32 - len(S)), (M32 - len(R) - 5, 77)]
+        # the first octets of the request on the SYN (TCP Fast Open), the rest in one or two further segments
+        # (never the whole head: a head completed by the SYN itself is reported with the next client segment, which the property allows)
+        for k_ in (1, 7, len(head_only(R)) - 1):
+            if 0 < k_ < len(R):
+                pc, ps = cuts_to_pieces(len(R), [k_]), cuts_to_pieces(len(S), [])
+                add(pi, 1000, 5000, pc, ps, [("c", 0), ("c", 1), ("s", 0)], tfo=True)
+                if k_ + 3 < len(R):
+                    pc = cuts_to_pieces(len(R), [k_, k_ + 3])
+                    add(pi, M32 - 2, 77, pc, ps, [("c", 0), ("c", 2), ("c", 1), ("s", 0)], tfo=True)
         # both messages whole, each in one segment, in both arrival orders
         for (ic, is_) in isns[:2]:
             pc, ps = cuts_to_pieces(len(R), []), cuts_to_pieces(len(S), [])
@@ -158,8 +168,11 @@ def run(tier, v):
         cip, sip = (10, 1, (si >> 8) & 255, si & 255), (10, 2, 0, 1)
         cp, sp = 30000 + si % 30000, 80
         ic, is_ = s["isn"]["c"], s["isn"]["s"]
-        frames = [frame(cip, sip, cp, sp, ic, 0, 0x02, b""), frame(sip, cip, sp, cp, is_, (ic + 1) % M32, 0x12, b"")]
+        syn_data = R[:s["pieces"]["c"][0][1]] if s["tfo"] else b""
+        frames = [frame(cip, sip, cp, sp, ic, 0, 0x02, syn_data), frame(sip, cip, sp, cp, is_, (ic + 1) % M32, 0x12, b"")]
         for oi, (d, k) in enumerate(s["order"]):
+            if s["tfo"] and oi == 0:
+                continue                       # ("c", 0) is the SYN above
             off, ln = s["pieces"][d][k]
             # every third connection is closed by the sender of its last-arriving segment in that very segment (FIN|PSH|ACK: a server
             # that answers and closes, a client that half-closes with its request): the data it carries is analysed like any other
@@ -180,7 +193,7 @@ def run(tier, v):
             s = scen[o["id"]]
             R, S = PAIRS[s["pair"]]
             outs = []
-            for (d, k), fr in zip(s["order"], o["out"][2:]):
+            for (d, k), fr in zip(s["order"], ([o["out"][0]] + o["out"][2:]) if s["tfo"] else o["out"][2:]):
                 n_seg += 1
                 if fr["r"] != "ok":
                     outs.append("panic" if fr["r"] == "panic" else "none")
